@@ -157,6 +157,7 @@ class Harness:
         self.exec_count = 0
         self.inits = 0
         self.runaway = False
+        self.workers = []         # every run thread this simulator ever created
         self.max_exec = 32 * (len(prog.get("handlers", {})) + len(prog.get("init", [])) + 50)
         h = self
 
@@ -404,6 +405,9 @@ class Harness:
             self.sim.initialize(self.model, self.replication)
         finally:
             self.sim.__dict__["_verif_in_init"] = False
+            w = self.worker()
+            if w is not None and w not in self.workers:
+                self.workers.append(w)
         self.subscribe()
 
     def worker(self):
